@@ -205,6 +205,12 @@ func FireTimers() int {
 	return 0
 }
 
+// LongPause lets a long time pass: under gosym every armed timer expires (as FireTimers);
+// natively it sleeps for 700 ms, longer than any "give up after a while" bound found in the code.
+func LongPause() {
+	time.Sleep(700 * time.Millisecond)
+}
+
 // ExploreSelect makes a select statement with several ready cases a decision (Go chooses
 // among them at random); no-op natively.
 func ExploreSelect(on bool) {}
